@@ -85,7 +85,12 @@ def generate(seed, mode="c07", opts=None):
         sigs_ = sorted(n_ for n_, (w_, _v, _d) in mm.sigs.items() if w_ == 1)
         if insts_ and sigs_ and ch.chance(1, 2):
             # ... and a connection made on one of its instances, to a port name not connected so far
-            script.append(["expect_raise", ["conn", m, ch.pick(insts_, "lateinst"), f"latep{len(script)}", ["s", ch.pick(sigs_, "latesig")], "connect"]])
+            li = ch.pick(insts_, "lateinst")
+            if ch.chance(1, 2) and mm.conns.get(li):
+                # ... or replace() on one of its existing connections
+                script.append(["expect_raise", ["repl", m, li, ch.pick(sorted(mm.conns[li]), "lateport"), ["s", ch.pick(sigs_, "latesig")]]])
+            else:
+                script.append(["expect_raise", ["conn", m, li, f"latep{len(script)}", ["s", ch.pick(sigs_, "latesig")], "connect"]])
     for _ in range(ch.rint(1, 3, "nfinal")):
         script.append(gen_call(ch, ended, netlistable))
     scn = {
@@ -520,12 +525,12 @@ def run(scn):
     # which an earlier failed call left partially elaborated.  Neither C07 (fully elaborated
     # modules refuse additions) nor C08 defines what such an edit means.
     for k, op in enumerate(ops):
-        if op[0] == "expect_raise" and op[1][0] == "conn" and outcomes[k] is not None and not outcomes[k]["raised"]:
+        if op[0] == "expect_raise" and op[1][0] in ("conn", "repl") and outcomes[k] is not None and not outcomes[k]["raised"]:
             # a connection edit that was accepted: by a module some call had completely elaborated
             # (it refuses additions: C07), or by one that no call had finished (no statement: discard)
             plain = [o_ if o_[0] != "expect_raise" else ["gc"] for o_ in ops]
             if _fully_elaborated(plain, outcomes, k, op[1][1], None):
-                res["findings"].append({"prop": "C07", "clause": "freeze", "detail": [f"a connection to a new port name on an instance of elaborated module {op[1][1]} was accepted"], "at": k})
+                res["findings"].append({"prop": "C07", "clause": "freeze", "detail": [f"a connection edit ({op[1][0]}) on an instance of elaborated module {op[1][1]} was accepted"], "at": k})
                 res["nontrivial"] = True
                 res["sig"] = hash64(str(scn["ops"]))
                 return res
